@@ -1,6 +1,7 @@
 //! rigs: drive the library through the in-memory physical layer, on a current-thread runtime with a paused clock
 pub mod exec;
 pub mod handler;
+pub mod master;
 pub mod outstation;
 
 use std::future::Future;
